@@ -100,10 +100,14 @@ def gen_case(rng, cfg, idx):
         elif r < 0.54 and live_t:
             x = rng.choice(live_t)
             s = shapes[x]
-            o = new("a")
-            st.append(["arr", o, list(s), False, "C"])
-            arrs.append(o)
-            shapes[o] = s
+            cand = [a for a in arrs if shapes.get(a) == s]
+            if cand and rng.random() < 0.4:
+                o = rng.choice(cand)    # an existing user array (possibly a view, possibly with views of its own used elsewhere) as the target
+            else:
+                o = new("a")
+                st.append(["arr", o, list(s), False, "C"])
+                arrs.append(o)
+                shapes[o] = s
             out = new("r")
             st.append(["op", out, rng.choice(BI), [x, rng.choice(same(s))], o, None])
             shapes[out] = s
@@ -120,9 +124,13 @@ def gen_case(rng, cfg, idx):
         elif r < 0.73 and arrs:
             src = rng.choice(arrs)
             v = new("a")
-            st.append(["aview", v, src, "full"])
+            how = "full"
+            if shapes[src][0] >= 2 and rng.random() < 0.5:
+                how = rng.choice(["lo", "hi"])
+            st.append(["aview", v, src, how])
             arrs.append(v)
-            shapes[v] = shapes[src]
+            k0 = shapes[src][0]
+            shapes[v] = shapes[src] if how == "full" else ((k0 // 2 if how == "lo" else k0 - k0 // 2),) + tuple(shapes[src][1:])
         elif r < 0.76 and len(arrs) > 1:
             # the user drops one of their arrays (often a view) and allocates a fresh one, possibly read-only, right away: CPython hands
             # out the freed object's address again, so stale id-keyed bookkeeping would now point at an unrelated array
@@ -143,6 +151,30 @@ def gen_case(rng, cfg, idx):
                 st.append(["cycle", x])
             st.append(["del", x])
             (results if x in results else tens).remove(x)
+        elif r < 0.962 and live_t:
+            # one user buffer, its two halves as separate views: one half is an operand, the other the out= target of the same operation,
+            # and the halves / the buffer take part in further graphs that are dropped in any order
+            x = rng.choice(live_t)
+            s = shapes[x]
+            buf = new("a")
+            st.append(["arr", buf, [2 * s[0]] + list(s[1:]), False, "C"])
+            lo, hi = new("a"), new("a")
+            st.append(["aview", lo, buf, "lo"])
+            st.append(["aview", hi, buf, "hi"])
+            for q in (buf, lo, hi):
+                arrs.append(q)
+            shapes[buf] = (2 * s[0],) + tuple(s[1:])
+            shapes[lo] = shapes[hi] = s
+            out = new("r")
+            st.append(["op", out, rng.choice(BI), [lo, x] if rng.random() < 0.5 else [x, lo], hi, None])
+            shapes[out] = s
+            results.append(out)
+            if rng.random() < 0.6:
+                out2 = new("r")
+                st.append(["op", out2, rng.choice(UN + BI[:1]), [rng.choice([lo, hi])] * (1 if st[-1] else 1), None, None]
+                          if False else ["op", out2, rng.choice(UN), [rng.choice([lo, hi])], None, None])
+                shapes[out2] = s
+                results.append(out2)
         elif r < 0.975 and results:
             # a consumed tensor whose graph is cleared and which is then updated in place while its consumer is still alive: the array the
             # consumer was recorded with now belongs to an internal placeholder only and can die before the consumer releases it
@@ -321,7 +353,15 @@ def exec_stmt(env, mon, s, guarded):
         mon.see(a, name)
     elif k == "aview":
         _, name, src, how = s
-        v = env[src][...] if how == "full" else env[src].T
+        a_ = env[src]
+        if how == "full":
+            v = a_[...]
+        elif how == "T":
+            v = a_.T
+        elif how == "lo":
+            v = a_[: a_.shape[0] // 2]
+        else:
+            v = a_[a_.shape[0] // 2:]
         env[name] = v
         mon.note_user_view(v)
     elif k == "tensor":
@@ -478,6 +518,36 @@ def run_case(case):
         if not mon.viol:
             for name in [n for n, v in env.items() if not isinstance(v, np.ndarray)]:
                 del env[name]           # the user keeps the arrays, drops every tensor
+            if not any(s_[0] == "cycle" for s_ in case["st"]):
+                # nothing in this history parks results in a reference cycle: dropping the last references must be enough, a garbage
+                # collection must not be needed to get the flags back (the cyclic GC is disabled during the case)
+                for aid, (ref, orig, name) in mon.arrays.items():
+                    a = ref()
+                    if a is None or bool(a.flags.writeable) == orig:
+                        continue
+                    mon.cnt["pre_gc_quiescence_checks"] = mon.cnt.get("pre_gc_quiescence_checks", 0) + 1
+                    before_gc = bool(a.flags.writeable)
+                    # mechanism probe for the known finding: is some tensor that is still alive part of a creator/variables graph that
+                    # contains a cycle (an in-place update of a partially cleared tensor whose dependants were alive)?
+                    from mgverif.props.C09 import graph_cyclic
+                    cyclic = False
+                    for r_ in REG.tensors:
+                        t_ = r_()
+                        if t_ is not None and t_._creator is not None:
+                            try:
+                                if graph_cyclic(t_):
+                                    cyclic = True
+                                    break
+                            except Exception:
+                                pass
+                    t_ = None
+                    gc.collect()
+                    if bool(a.flags.writeable) == orig:
+                        mon.viol.append({"monitor": "M-locks", "mech": "cyclic-graph-keeps-locks-until-gc" if cyclic else "restored-only-by-gc",
+                                         "msg": f"after the last reference was dropped array {name} had writeable={before_gc} (originally {orig}); "
+                                                f"only a garbage collection restored it: the graph was kept alive by a reference cycle"})
+                    break
+                mon.cnt["pre_gc_quiescence"] = mon.cnt.get("pre_gc_quiescence", 0) + 1
             gc.collect()
             for aid, (ref, orig, name) in mon.arrays.items():
                 a = ref()
@@ -551,3 +621,14 @@ def debug_dump(mon, tensors_alive):
     live_ops = [(r(), g) for r, g in mon.opguard.values() if r() is not None]
     print("  live ops:", [(type(o).__name__, g, [id(v.data) for v in o.variables]) for o, g in live_ops])
     print("  arrays:", [(n, aid, r() is not None and bool(r().flags.writeable), o) for aid, (r, o, n) in mon.arrays.items()])
+
+
+def witness_cases():
+    # the recorded witness of the known finding cyclic-graph-keeps-locks-until-gc
+    return [{"st": [["arr", "a1", [1], False, "C"], ["aview", "a2", "a1", "T"], ["tensor", "t3", "a2", True, None], ["tview", "r4", "t3", "first"],
+                    ["op", "r5", "add_sequence", ["r4", "r4"], None, None], ["op", "r6", "sin", ["r4"], None, "no_autodiff"],
+                    ["op", "r7", "subtract", ["r4", "r4"], None, None], ["inplace", "r5", "imul", None], ["clear", "r7"],
+                    ["op", "r8", "add", ["r5", "r5"], None, None], ["arr", "a9", [1], False, "C"], ["op", "r10", "maximum", ["t3", "a1"], "a9", None],
+                    ["inplace", "r4", "imul", "r5"], ["op", "r11", "add_sequence", ["r6", "r4", "r4"], None, "mem_guard_on"], ["del", "r5"],
+                    ["del", "t3"], ["del", "r10"], ["del", "r8"], ["del", "r6"], ["gc"], ["del", "r11"], ["gc"], ["del", "r7"], ["del", "r4"]],
+             "gcinject": 0.0, "gseed": 1}]
